@@ -285,6 +285,53 @@ func (mo *monitor) probe(rp *realPool, replay any) {
 	mo.checkCounters(pre, replay)
 }
 
+// settle lets the queue's timer goroutines run freely and waits until every expired entry has left the real queue
+// and no timer goroutine is running any more.
+func (rp *realPool) settle() {
+	deadline := time.Now().Add(10 * time.Second)
+	for time.Now().Before(deadline) {
+		time.Sleep(2 * time.Millisecond)
+		expired := false
+		for _, it := range rp.vp.Queue() {
+			if int(it.CreatedAt.Sub(rp.t0)/time.Second)+rp.ttl <= rp.now() {
+				expired = true
+			}
+		}
+		if !expired && len(rp.sched.liveTimers()) == 0 {
+			return
+		}
+	}
+}
+
+// probeCooldown: the code left the model, possibly only in bookkeeping that decides LATER when a cool-down ends
+// (stale queue entries, entry counters). Make that observable: put every peer on a fresh cool-down and watch, tick by
+// tick, that the pool does not hand it out before ttl has elapsed. Two rounds, so that entries queued at the current
+// time and entries queued earlier both get the chance to end the new cool-down early. Only the real behaviour is
+// judged (monitor `offered`), against the property itself.
+func (mo *monitor) probeCooldown(rp *realPool, names []string, replay any) {
+	if len(names) == 0 {
+		return
+	}
+	rp.sched.freeAll() // timers run on their own from here
+	for round := 0; round < 2; round++ {
+		for _, p := range names {
+			rp.vp.Remove(peer.ID(p))
+			delete(rp.coolUntil, p)
+			rp.vp.Add(peer.ID(p))
+			pre, _ := rp.snapshot()
+			rp.vp.PutOnCooldown(peer.ID(p))
+			if pre.St[p] == "active" {
+				rp.coolUntil[p] = rp.now() + rp.ttl
+			}
+		}
+		for k := 1; k < rp.ttl; k++ {
+			rp.clk.Add(time.Second)
+			rp.settle()
+			mo.probe(rp, replay)
+		}
+	}
+}
+
 // probeWaiters: with an active peer in the pool, every goroutine that waits inside next() (live context) must
 // wake up and ask again. The harness is quiescent: nothing else runs.
 func (mo *monitor) probeWaiters(rp *realPool, replay any) {
@@ -360,6 +407,14 @@ func replayAtomicPath(rep *vh.Report, mo *monitor, ttl, cleanup int, slots []str
 			// the code left the model: make a wrong internal state observable through the API
 			mo.probeWaiters(rp, replayObj)
 			mo.probe(rp, replayObj)
+			var names []string
+			if len(path) > 0 && path[0].T != nil {
+				for p := range path[0].T.Pool.St {
+					names = append(names, p)
+				}
+			}
+			sort.Strings(names)
+			mo.probeCooldown(rp, names, replayObj)
 		}
 		return res
 	}
